@@ -63,7 +63,10 @@ def generate(rng, prop, tier):
         ops.append(op)
     return {'engine': 'syncsim', 'prop': prop, 'backend': B.config(label, 's0'), 'ops': ops,
             'kseed': rng.below(1 << 30), 'seedfill': rng.chance(0.3) and
-            [[rng.choice(keys), rng.choice(vals)] for _ in range(rng.randint(1, 3))] or []}
+            [[rng.choice(keys), rng.choice(vals)] for _ in range(rng.randint(1, 3))] or [],
+            # sparse: cache and archives are read back only every few steps and at the end, so that the
+            # harness's reads do not hide state one step leaves for the next
+            'observe': rng.weighted([(7, 'full'), (3, 'sparse')])}
 
 
 class Mismatch(Exception):
@@ -282,7 +285,10 @@ def execute(case, prop, ctx):
                     else:
                         raise Mismatch('drop', 'drop() raised %s %s' % (g[0], g[1]))
                     bump(faults, 'drop')
-                check('after step %d %s' % (step, json.dumps(op, sort_keys=True)[:200]))
+                if case.get('observe') != 'sparse' or step % 4 == 3 or step == len(case['ops']) - 1:
+                    check('after step %d %s' % (step, json.dumps(op, sort_keys=True)[:200]))
+                else:
+                    bump(probes, 'sparse-step-without-read-back')
                 shape.append('%s:%d:%s' % (kind, len(mem), 'on' if attached is not None else 'off'))
                 obs.append([kind, sorted(map(show, mem))])
     except Mismatch as e:
@@ -305,6 +311,10 @@ def simplify(case):
         c = _copy.deepcopy(case)
         c['seedfill'] = []
         yield c
+    if case.get('observe') == 'sparse':
+        c = _copy.deepcopy(case)
+        c['observe'] = 'full'
+        yield c
     for i, op in enumerate(case['ops']):
         if 'v' in op and op['v'] not in (7, 'v'):
             c = _copy.deepcopy(case)
@@ -323,8 +333,10 @@ def simplify(case):
 def signature(case, viol, prop):
     label = case['backend']['label']
     famb = label if label in ('file-src', 'dir-src', 'sql-mem') else label.split('-')[0]
-    kinds = sorted(set(op['op'] for op in case['ops']))
-    return '%s|%s|%s|%s' % (prop, famb, viol['class'], '+'.join(kinds))
+    step = viol.get('step', -1)
+    ops = case['ops']
+    failing = ops[step]['op'] if 0 <= step < len(ops) else '?'
+    return '%s|%s|%s|%s' % (prop, famb, viol['class'], failing)
 
 
 def evidence_info(prop):
